@@ -129,6 +129,30 @@ impl G<'_> {
             atoms.push(self.atom(&rel, ar, &pool));
         }
         self.r.shuffle(&mut atoms);
+        let mut multikey_here = false;
+        if atoms.len() >= 2 && self.pct(35) {
+            // multi-column join: atom j re-uses two variables of atom i, in any positions/order
+            let i = self.r.below(atoms.len());
+            let mut j = self.r.below(atoms.len());
+            if j == i {
+                j = (i + 1) % atoms.len();
+            }
+            let vars: Vec<String> = atoms[i].args.iter().filter_map(|t| if let Term::Var(v) = t { Some(v.clone()) } else { None }).collect::<BTreeSet<_>>().into_iter().collect();
+            if vars.len() >= 2 && atoms[j].args.len() >= 2 {
+                let mut pos: Vec<usize> = (0..atoms[j].args.len()).collect();
+                self.r.shuffle(&mut pos);
+                let mut vs = vars.clone();
+                self.r.shuffle(&mut vs);
+                atoms[j].args[pos[0]] = Term::Var(vs[0].clone());
+                atoms[j].args[pos[1]] = Term::Var(vs[1].clone());
+                if atoms[j].args.len() == 3 && self.pct(70) {
+                    // a column that only this atom provides
+                    atoms[j].args[pos[2]] = Term::Var("T".into());
+                }
+                self.tags.insert("multikey_join");
+                multikey_here = true;
+            }
+        }
         // make sure at least one variable exists
         if atoms.iter().all(|a| a.args.iter().all(|t| !matches!(t, Term::Var(_)))) {
             atoms[0].args[0] = Term::Var("X".into());
@@ -220,6 +244,11 @@ impl G<'_> {
                 }
             })
             .collect();
+        if multikey_here && agg.is_none() && bound.iter().any(|v| v == "T") && self.pct(50) {
+            // project the column that only the multi-key atom provides
+            let pos = self.r.below(arity);
+            hargs[pos] = HeadArg::T(Term::Var("T".into()));
+        }
         if let Some(f) = agg {
             self.tags.insert("agg");
             let pos = self.r.below(arity);
@@ -231,13 +260,60 @@ impl G<'_> {
 
 pub fn gen_edb(r: &mut Rng, o: &GenOpts) -> Db {
     let mut db = Db::new();
+    // three EDB styles: independent random tuples; correlated relations (tuples of b and d are built
+    // from tuples of a, so that joins on two columns are non-empty); chain/cycle-like graphs over a
+    // larger domain (so that recursion needs many rounds)
+    let style = r.below(10);
+    let dom = if style >= 7 { o.domain + 1 + r.below(5) as i64 } else { o.domain };
     for (name, ar) in EDB_RELS {
         let n = if r.chance(8, 100) { 0 } else { 1 + r.below(o.max_edb) };
         let mut rel = Rel::new();
         for _ in 0..n {
-            rel.insert((0..ar).map(|_| V::I(r.range(0, o.domain - 1))).collect());
+            rel.insert((0..ar).map(|_| V::I(r.range(0, dom - 1))).collect());
         }
         db.insert(name.to_string(), rel);
+    }
+    if style >= 7 {
+        // a: a path 0->1->..->k (plus a few random edges), b: the reverse path or a shifted one
+        let k = 3 + r.below(dom as usize - 2) as i64;
+        let a = db.get_mut("a").unwrap();
+        for i in 0..k {
+            if r.chance(9, 10) {
+                a.insert(vec![V::I(i), V::I(i + 1)]);
+            }
+        }
+        if r.chance(1, 3) {
+            a.insert(vec![V::I(k), V::I(0)]);
+        }
+        let b = db.get_mut("b").unwrap();
+        for i in 0..k {
+            if r.chance(1, 2) {
+                b.insert(vec![V::I(i + 1), V::I(i)]);
+            } else if r.chance(1, 2) {
+                b.insert(vec![V::I(i), V::I((i + 2) % (k + 1))]);
+            }
+        }
+    } else if style >= 3 {
+        let a: Vec<Tup> = db["a"].iter().cloned().collect();
+        if !a.is_empty() {
+            let b = db.get_mut("b").unwrap();
+            for _ in 0..(1 + r.below(4)) {
+                let t = r.pick(&a).clone();
+                b.insert(if r.chance(1, 2) { vec![t[1].clone(), t[0].clone()] } else { t });
+            }
+            let d = db.get_mut("d").unwrap();
+            for _ in 0..(1 + r.below(5)) {
+                let t = r.pick(&a).clone();
+                let z = V::I(r.range(0, dom - 1));
+                let row = match r.below(4) {
+                    0 => vec![t[0].clone(), t[1].clone(), z],
+                    1 => vec![t[1].clone(), t[0].clone(), z],
+                    2 => vec![z, t[0].clone(), t[1].clone()],
+                    _ => vec![t[1].clone(), z, t[0].clone()],
+                };
+                d.insert(row);
+            }
+        }
     }
     db
 }
@@ -266,26 +342,38 @@ fn gen_program_once(r: &mut Rng, o: &GenOpts) -> GenProgram {
         arity.insert(name.clone(), ar);
         let negs = avail.clone();
         if i + 1 < n_idb && g.pct(o.mutual) {
-            // mutually recursive pair p_i, p_{i+1}
+            // mutually recursive group p_i .. p_{i+k-1}, k in {2,3}: a ring guarantees the SCC, extra
+            // clauses add cross references in any direction; clause order is shuffled
             g.tags.insert("rec_mutual");
-            let name2 = format!("p{}", i + 2);
-            let ar2 = 1 + g.r.below(3);
-            arity.insert(name2.clone(), ar2);
-            let c1 = g.clause(&name, ar, &avail, None, &negs, true, None); // base
-            let mut both = avail.clone();
-            both.push((name.clone(), ar));
-            both.push((name2.clone(), ar2));
-            let c2 = g.clause(&name2, ar2, &both, Some((name.clone(), ar)), &negs, false, None);
-            let c3 = g.clause(&name, ar, &both, Some((name2.clone(), ar2)), &negs, false, None);
-            let mut group = vec![c1, c2, c3];
+            let ksz = if i + 2 < n_idb && g.pct(50) { 3 } else { 2 };
+            if ksz == 3 {
+                g.tags.insert("rec_mutual3");
+            }
+            let members: Vec<(String, usize)> = (0..ksz).map(|m| (format!("p{}", i + 1 + m), if g.pct(60) { 1 + g.r.below(2) } else { 1 + g.r.below(3) })).collect();
+            for (n, a) in &members {
+                arity.insert(n.clone(), *a);
+            }
+            let mut all = avail.clone();
+            all.extend(members.iter().cloned());
+            let mut group = vec![g.clause(&members[0].0, members[0].1, &avail, None, &negs, true, None)]; // base
+            for m in 0..ksz {
+                let (hn, ha) = members[(m + 1) % ksz].clone();
+                // bodies over EDB + group members, forced to contain the ring predecessor
+                group.push(g.clause(&hn, ha, &all, Some(members[m].clone()), &negs, false, None));
+            }
+            for _ in 0..g.r.below(3) {
+                let (hn, ha) = members[g.r.below(ksz)].clone();
+                let must = members[g.r.below(ksz)].clone();
+                group.push(g.clause(&hn, ha, &all, Some(must), &negs, false, None));
+            }
             if g.pct(40) {
-                group.push(g.clause(&name2, ar2, &avail, None, &negs, true, None));
+                let (hn, ha) = members[1 + g.r.below(ksz - 1)].clone();
+                group.push(g.clause(&hn, ha, &avail, None, &negs, true, None));
             }
             g.r.shuffle(&mut group);
             clauses.extend(group);
-            avail.push((name, ar));
-            avail.push((name2, ar2));
-            i += 2;
+            avail.extend(members);
+            i += ksz;
             continue;
         }
         if g.pct(o.rec) {
